@@ -80,8 +80,15 @@ type State struct {
 	nobl     int
 	loopSeen map[*ssa.BasicBlock]bool
 	sliceBase map[string]sliceBaseInfo
+	nestedM   bool                 // scratch states: a nested pure interface method call was evaluated
+	msyms     map[string][]msymRec // pure-method symbols declared so far, per method
 	calls     []CallRec // dynamic (interface / function-value) calls made so far on this path
 	callsLost bool      // a loop was entered: the call log is no longer exact
+}
+
+type msymRec struct {
+	sym  string
+	vers map[string]string
 }
 
 // CallRec: one dynamically dispatched call made by this activation
@@ -129,6 +136,10 @@ func (st *State) clone() *State {
 		n.loopSeen[k] = v
 	}
 	n.trail = append([]string(nil), st.trail...)
+	n.msyms = make(map[string][]msymRec, len(st.msyms))
+	for k, v := range st.msyms {
+		n.msyms[k] = append([]msymRec(nil), v...)
+	}
 	n.calls = append([]CallRec(nil), st.calls...)
 	n.callsLost = st.callsLost
 	n.sliceBase = make(map[string]sliceBaseInfo, len(st.sliceBase))
@@ -220,11 +231,11 @@ func (st *State) fieldFam(si *StructInfo, i int) *Family {
 		sym := sanitize(name) + "@0"
 		switch si.Fields[i].Type.Underlying().(type) {
 		case *types.Pointer, *types.Map, *types.Signature:
-			st.sc.emit("(assert (forall ((o Int)) (! (< (%[1]s o) %[2]s) :pattern ((%[1]s o)))))", sym, st.alloc0.S)
+			st.sc.emit("(assert (forall ((o Int)) (! (=> (< o %[2]s) (< (%[1]s o) %[2]s)) :pattern ((%[1]s o)))))", sym, st.alloc0.S)
 		case *types.Slice:
-			st.sc.emit("(assert (forall ((o Int)) (! (< (s-arr (%[1]s o)) %[2]s) :pattern ((%[1]s o)))))", sym, st.alloc0.S)
+			st.sc.emit("(assert (forall ((o Int)) (! (=> (< o %[2]s) (< (s-arr (%[1]s o)) %[2]s)) :pattern ((%[1]s o)))))", sym, st.alloc0.S)
 		case *types.Interface:
-			st.ifaceClosure("((o Int))", "("+sym+" o)")
+			st.ifaceClosureG("((o Int))", "("+sym+" o)", "(< o "+st.alloc0.S+")")
 		case *types.Struct:
 			// one level of nesting: slices / pointers / maps inside a struct-valued field
 			nsi := st.u().structInfoOf(si.Fields[i].Type)
@@ -233,9 +244,9 @@ func (st *State) fieldFam(si *StructInfo, i int) *Family {
 				sel := fmt.Sprintf("(%s.%s (%s o))", nsi.Sort, nf.Name, sym)
 				switch nf.Type.Underlying().(type) {
 				case *types.Pointer, *types.Map, *types.Signature:
-					st.sc.emit("(assert (forall ((o Int)) (! (< %s %s) :pattern ((%s o)))))", sel, st.alloc0.S, sym)
+					st.sc.emit("(assert (forall ((o Int)) (! (=> (< o %[2]s) (< %[1]s %[2]s)) :pattern ((%[3]s o)))))", sel, st.alloc0.S, sym)
 				case *types.Slice:
-					st.sc.emit("(assert (forall ((o Int)) (! (< (s-arr %s) %s) :pattern ((%s o)))))", sel, st.alloc0.S, sym)
+					st.sc.emit("(assert (forall ((o Int)) (! (=> (< o %[2]s) (< (s-arr %[1]s) %[2]s)) :pattern ((%[3]s o)))))", sel, st.alloc0.S, sym)
 				}
 			}
 		}
@@ -245,7 +256,9 @@ func (st *State) fieldFam(si *StructInfo, i int) *Family {
 
 // ifaceClosure: entry-heap closure for interface-typed locations: what an interface value of the
 // initial heap holds (a pointer, map, function or slice) was allocated before function entry.
-func (st *State) ifaceClosure(binders, read string) {
+func (st *State) ifaceClosure(binders, read string) { st.ifaceClosureG(binders, read, "true") }
+
+func (st *State) ifaceClosureG(binders, read, guard string) {
 	ids := make([]int, 0, len(st.u().typeByID))
 	for id := range st.u().typeByID {
 		ids = append(ids, id)
@@ -269,7 +282,7 @@ func (st *State) ifaceClosure(binders, read string) {
 	if len(parts) == 0 {
 		return
 	}
-	st.sc.emit("(assert (forall %s (! (and %s) :pattern (%s))))", binders, strings.Join(parts, " "), read)
+	st.sc.emit("(assert (forall %s (! (=> %s (and %s)) :pattern (%s))))", binders, guard, strings.Join(parts, " "), read)
 }
 func (st *State) cellFam(s Sort) *Family {
 	name := famCell(s)
@@ -277,10 +290,10 @@ func (st *State) cellFam(s Sort) *Family {
 	f := st.family(name, []Sort{SInt}, s)
 	if !existed && s == SSlice {
 		sym := sanitize(name) + "@0"
-		st.sc.emit("(assert (forall ((o Int)) (! (< (s-arr (%[1]s o)) %[2]s) :pattern ((%[1]s o)))))", sym, st.alloc0.S)
+		st.sc.emit("(assert (forall ((o Int)) (! (=> (< o %[2]s) (< (s-arr (%[1]s o)) %[2]s)) :pattern ((%[1]s o)))))", sym, st.alloc0.S)
 	}
 	if !existed && s == SIface {
-		st.ifaceClosure("((o Int))", "("+sanitize(name)+"@0 o)")
+		st.ifaceClosureG("((o Int))", "("+sanitize(name)+"@0 o)", "(< o "+st.alloc0.S+")")
 	}
 	return f
 }
@@ -290,10 +303,10 @@ func (st *State) elemFam(s Sort) *Family {
 	f := st.family(name, []Sort{SInt, SInt, SInt}, s)
 	if !existed && s == SSlice {
 		sym := sanitize(name) + "@0"
-		st.sc.emit("(assert (forall ((a Int) (o Int) (i Int)) (! (< (s-arr (%[1]s a o i)) %[2]s) :pattern ((%[1]s a o i)))))", sym, st.alloc0.S)
+		st.sc.emit("(assert (forall ((a Int) (o Int) (i Int)) (! (=> (< a %[2]s) (< (s-arr (%[1]s a o i)) %[2]s)) :pattern ((%[1]s a o i)))))", sym, st.alloc0.S)
 	}
 	if !existed && s == SIface {
-		st.ifaceClosure("((a Int) (o Int) (i Int))", "("+sanitize(name)+"@0 a o i)")
+		st.ifaceClosureG("((a Int) (o Int) (i Int))", "("+sanitize(name)+"@0 a o i)", "(< a "+st.alloc0.S+")")
 	}
 	return f
 }
@@ -312,9 +325,9 @@ func (st *State) mapFamsT(mt *types.Map) (dom, val, ln *Family) {
 		sym := sanitize("MV."+tn) + "@0"
 		switch mt.Elem().Underlying().(type) {
 		case *types.Pointer, *types.Map, *types.Signature:
-			st.sc.emit("(assert (forall ((m Int) (k %[3]s)) (! (< (%[1]s m k) %[2]s) :pattern ((%[1]s m k)))))", sym, st.alloc0.S, k)
+			st.sc.emit("(assert (forall ((m Int) (k %[3]s)) (! (=> (< m %[2]s) (< (%[1]s m k) %[2]s)) :pattern ((%[1]s m k)))))", sym, st.alloc0.S, k)
 		case *types.Interface:
-			st.ifaceClosure(fmt.Sprintf("((m Int) (k %s))", k), "("+sym+" m k)")
+			st.ifaceClosureG(fmt.Sprintf("((m Int) (k %s))", k), "("+sym+" m k)", "(< m "+st.alloc0.S+")")
 		}
 	}
 	return
